@@ -9,10 +9,13 @@ def main():
     rows = []
     for mp in sorted(glob.glob(os.path.join(V, 'seeded', '*', 'meta.json'))):
         m = json.load(open(mp))
-        ran = {}
+        ran, earlier_silent = {}, set()
         for r in m.get('ran', []):
-            ran[(r['check'], r.get('tier', 'quick'))] = r      # the latest run of a check wins
-        caught = sorted({'%s %s' % (c, t) for (c, t), r in ran.items() if r['exit'] == 1})
+            k = (r['check'], r.get('tier', 'quick'))
+            if k in ran and ran[k]['exit'] == 0 and r['exit'] == 1:
+                earlier_silent.add(k)                           # missed at first, reported after the check was strengthened
+            ran[k] = r                                          # the latest run of a check wins
+        caught = sorted({'%s %s%s' % (c, t, ' (after strengthening, see text)' if (c, t) in earlier_silent else '') for (c, t), r in ran.items() if r['exit'] == 1})
         missed = sorted({'%s %s' % (c, t) for (c, t), r in ran.items() if r['exit'] == 0})
         rows.append('| `seeded/%s` | %s | %s | %s | %s | %s |' % (
             m['name'], m['breaks_property'], m.get('summary', '').replace('|', '/'), m.get('needs', '').replace('|', '/'),
